@@ -367,6 +367,13 @@ func (e *Enc) applyContract(fr *Frame, c *Contract, key string, args []Term, arg
 			h = store(h, Term{"3", SInt}, rs[0])
 		}
 		e.heapSet(st, ck, h)
+		if e.w.CS.Ghosts["opat"] != nil {
+			// sequence numbers: opat[0] counts traced calls, opat[id] is the number of the last call of operation id
+			ak, _ := e.ghostKey("opat")
+			ah := e.heapGet(st, ak)
+			n := e.def("opseq", T(SInt, "(+ (select %s 0) 1)", ah.S))
+			e.heapSet(st, ak, store(store(ah, Term{"0", SInt}, n), intLit64(int64(c.Traced)), n))
+		}
 	}
 	return rs
 }
